@@ -57,8 +57,11 @@ entry("C05", "Hypothesis-driven fuzzing of every kernel entry point, each "
       "example executed in a forked child under AddressSanitizer + "
       "UndefinedBehaviorSanitizer, failures bucketed by (error, frame) and "
       "the search repeated with found buckets excluded",
-      "37 entry points x boundary shapes (lengths 0/1/2, NaN/inf/huge, "
-      "out-of-range cells and options). A sanitizer report or signal is the "
+      "44 sub-checks: 37 entry points x boundary shapes (lengths 0/1/2, "
+      "NaN/inf/huge, other array shapes, out-of-range cells, options and "
+      "labels up to the ends of the integer range), plus enumerated sweeps "
+      "(large sizes, sizes around round numbers, read-only inputs, right "
+      "border, empty grids). A sanitizer report or signal is the "
       "failure signal; Python exceptions are passes. Instrumented execution "
       "is what makes silent out-of-bounds accesses visible.",
       "DESIGN.md section 3, C05")
